@@ -7,7 +7,7 @@ EXTENDS Events, Json, TLC
 CONSTANTS MaxEv, Lens
 VARIABLES evs, st, done, res
 
-Scal == { <<"uint", <<1>>>>, <<"nint", <<>>>>, <<"tstr", <<120>>>>, <<"null">>, <<"bool", TRUE>>, <<"f64", <<63,248,0,0,0,0,0,0>>>>, <<"bstr", <<1>>>> }
+Scal == { <<"uint", <<1>>>>, <<"nint", <<>>>>, <<"tstr", <<120>>>>, <<"tstr", <<31, 34, 92, 127>>>>, <<"null">>, <<"bool", TRUE>>, <<"f64", <<63,248,0,0,0,0,0,0>>>>, <<"bstr", <<1>>>> }
 LensAll == Lens \cup {NoLen}
 Alphabet == { <<"ba", n>> : n \in LensAll } \cup { <<"bo", n>> : n \in LensAll } \cup { <<"ea">>, <<"eo">>, <<"key", <<97>>>>, <<"key", <<98>>>> }
             \cup { <<"val", s>> : s \in Scal }
